@@ -18,6 +18,11 @@ func (ex *Exec) finalChecks() {
 		return
 	}
 	ex.root = ex.ringBroken(members)
+	if rpcLogAll {
+		for _, h := range c.All {
+			simrt.Event("DEBUG %s id=%d state=%s history=%v pred=%s succ=%v", h.Name, h.ID, h.Node.VerifState(), h.Node.VerifHistory(), vid(h.Node.VerifPredecessor()), h.Node.VerifSuccessors())
+		}
+	}
 	if !ex.quiesced {
 		// no fixpoint after the quiet period: liveness part of C02 (and C07)
 		ex.violate("C02", "no-fixpoint", "ring pointers still changing after %d quiet periods: %s", ex.p.MaxQuiet, c.pointerState())
